@@ -607,7 +607,16 @@ func runC17(w *World, r *Report) {
 		n := 0
 		for _, nm := range []string{"ToolsNode.Invoke", "ToolsNode.Stream"} {
 			f := w.Fn("compose", nm)
-			for _, c := range callsTo(f, conv) {
+			// the conversion may sit in a helper the method calls (the common first half of Invoke and Stream)
+			sites := callsTo(f, conv)
+			if len(sites) == 0 {
+				for _, g := range staticCalleesOf(w, f) {
+					if w.inRepo(g) && g != conv {
+						sites = append(sites, callsTo(g, conv)...)
+					}
+				}
+			}
+			for _, c := range sites {
 				n++
 				isTL := func(v ssa.Value) bool { fl, _ := loadedField(v); return fl != nil && fl.Name() == "ToolList" }
 				good := hasGuard(c.Block(), func(g guard) bool { return guardNonNil(g, isTL) })
